@@ -1,7 +1,7 @@
 SPECIFICATION Spec
 CONSTANTS
   MaxLen = 2
-  Directed = FALSE
+  Directed = 0
   Emit = FALSE
 INVARIANT Inv
 CHECK_DEADLOCK FALSE
